@@ -101,6 +101,11 @@ type Opts struct {
 	Extensions  bool
 	Descr       bool
 	XNullable   bool
+	// Core keeps generated schemas inside the fragment in which the generated code is
+	// known to behave (the regions of listed known findings are avoided by
+	// construction): allOf only at the top level of a definition and never next to
+	// additionalProperties, x-nullable only on primitives.
+	Core bool
 	ReadOnly    bool
 	Formats     []string // string formats allowed (nil: a basic set)
 	NoEnum      bool
@@ -351,7 +356,7 @@ func Schema(t *rapid.T, label string, o *Opts, depth int) J {
 		if o.AddlProps {
 			kinds = append(kinds, "map")
 		}
-		if o.AllOf && len(o.allOfRefs()) > 0 {
+		if o.AllOf && len(o.allOfRefs()) > 0 && !(o.Core && depth > 0) {
 			kinds = append(kinds, "allOf")
 		}
 		if o.Tuples {
@@ -465,7 +470,7 @@ func Schema(t *rapid.T, label string, o *Opts, depth int) J {
 			s["example"] = v
 		}
 	}
-	if o.XNullable && chance(t, label+"_xn", 15) {
+	if o.XNullable && (!o.Core || isPrim(s)) && chance(t, label+"_xn", 15) {
 		s["x-nullable"] = rapid.Bool().Draw(t, label+"_xnv")
 	}
 	if o.Extensions && chance(t, label+"_hasext", 10) {
@@ -517,7 +522,7 @@ func ObjectInto(t *rapid.T, label string, o *Opts, depth int, s J) {
 			s["required"] = req
 		}
 	}
-	if o.AllOf && len(o.allOfRefs()) > 0 && chance(t, label+"_oallof", 15) {
+	if o.AllOf && len(o.allOfRefs()) > 0 && !(o.Core && depth > 0) && chance(t, label+"_oallof", 15) {
 		// own properties next to allOf members (inherited properties)
 		var members A
 		n := rapid.IntRange(1, 2).Draw(t, label+"_oan")
@@ -538,7 +543,7 @@ func ObjectInto(t *rapid.T, label string, o *Opts, depth int, s J) {
 			s["allOf"] = members
 		}
 	}
-	if o.AddlProps && chance(t, label+"_oap", 15) {
+	if o.AddlProps && !(o.Core && s["allOf"] != nil) && chance(t, label+"_oap", 15) {
 		switch rapid.IntRange(0, 2).Draw(t, label+"_oapk") {
 		case 0:
 			s["additionalProperties"] = true
